@@ -12,10 +12,8 @@ RULE = ("rules built through zbus::match_rule::Builder (every key optional, args
         "non-trivial = the rule has at least two keys, or the message matches")
 TRUSTED = ["the name / object-path validators are the model of C10 (C10/Model.v, tied to the code by C10's own correspondence)",
            "message abstraction: type, sender, interface, member, path, destination and a body made of the nine argument shapes "
-           "the harness builds (s, o, u, y, g, v(s), v(o), as, (su)); little-endian D-Bus encoding of these shapes (Model.wire)"]
+           "the harness builds (s, o, u, y, g, v(s), v(o), as, (su)); the body signature is the concatenation of their signatures"]
 ASSUMPTIONS = ["all strings are valid UTF-8 without NUL (the API takes &str; zvariant refuses NUL)",
-               "message bodies are shorter than 10 KiB (a variant / signature / array first argument cannot then be read as a string "
-               "by deserialize_unchecked)",
                "name ownership on the bus is a parameter of the specification; pairs that need it (well-known sender in the rule, "
                "well-known destination on the message) are exempt as documented by zbus and get no oracle verdict"]
 
@@ -336,19 +334,19 @@ def search(rng, bad_cases):
 
 ENABLED = True
 PARTIAL = ["C21_partial", "C21_full_refuted", "C21_arg_path_string_refuted",
-           "C21_arg_path_slash_refuted", "C21_sole_struct_refuted", "C21_arg0ns_untyped_refuted"]
+           "C21_arg_path_slash_refuted", "C21_sole_struct_refuted", "C21_sole_struct_arg0ns_refuted"]
 LEVEL = "proof"
 LEVEL_TEXT = ("Theorems in coq/theories/Properties/C21.v over a model of MatchRule::matches in code order: for every rule, every message "
-              "(of the modelled shape) and every name-ownership relation, outside three explicitly described deviation classes the code's "
+              "(of the modelled shape) and every name-ownership relation, outside two explicitly described deviation classes the code's "
               "verdict equals the D-Bus specification's match-rule semantics (C21_partial); in the documented exemption (well-known "
               "sender / destination) no message the specification delivers is dropped (C21_exempt_no_false_negative). The full statement "
-              "is still refuted by four machine-checked counterexamples, each confirmed on the real code (known findings); two earlier "
-              "classes (destination vs. a message without destination, path_namespace as string prefix) were repaired by fix 8cf9b673 and "
-              "are now inside the theorem. "
+              "is still refuted by four machine-checked counterexamples, each confirmed on the real code (known findings); three earlier "
+              "classes (destination vs. a message without destination, path_namespace as string prefix: fix 8cf9b673; arg0namespace "
+              "reading a non-string first argument: fix 3ae57b16) were repaired and are now inside the theorem. "
               "The model is tied to the code by differential runs on builder-built rules and near-miss messages; the specification "
-              "oracle is evaluated on the implementation's verdicts. Partial: the theorem excludes the three known classes.")
+              "oracle is evaluated on the implementation's verdicts. Partial: the theorem excludes the two known classes.")
 LEVEL_NOTE = ("Partial. Trusted: Coq kernel; the hand-written model (C21/Model.v) incl. the message abstraction and the body encoding of nine "
               "argument shapes; C10's validator model; harness hmatch. Known findings: argNpath is equality on object paths only (no strings, "
-              "no trailing-slash rule); a single struct argument is flattened into arg0, arg1, ...; arg0namespace reads the body bytes "
-              "without checking the type. Fixed by 8cf9b673 (witnesses kept, must pass): destination vs. absent destination, "
-              "path_namespace string prefix.")
+              "no trailing-slash rule); a single struct argument is flattened into arg0, arg1, ... (seen by argN, argNpath and "
+              "arg0namespace). Fixed (witnesses kept, must pass): destination vs. absent destination, path_namespace string prefix "
+              "(8cf9b673); arg0namespace on a non-string first argument (3ae57b16).")
